@@ -5,6 +5,7 @@ CONSTANTS
   NTags = 6
   SmallTags = 3
   KeyMode = "term_value"
+  DecodeMode = "stored"
   HashMode = "code"
   NearPairs = TRUE
   EqMode = "structural"
@@ -13,6 +14,7 @@ CONSTANTS
   WideProv = TRUE
 CONSTRAINT Export
 INVARIANT ImplEncoder
+INVARIANT ImplDecode
 INVARIANT ImplClassify
 INVARIANT ImplMulti
 INVARIANT ImplPred
